@@ -78,11 +78,31 @@ theorem toPoly_spread (b : Nat) (hb : 1 ≤ b) (L : List K) : toPoly (spread b L
       have : (X : K[X]) ^ b = X * X ^ (b - 1) := by rw [← pow_succ']; congr 1; omega
       rw [this]; ring
 
-/-- `power_compose(W,P,b)` is `P(X^b)` for every `b ≥ 1` -/
-theorem toPoly_powerCompose (P : List K) (b : Nat) (hb : 1 ≤ b) :
+theorem foldl_sum (L : List K) (acc : K) : L.foldl (fun s a => s + a) acc = acc + (toPoly L).eval 1 := by
+  induction L generalizing acc with
+  | nil => simp
+  | cons a L ih => simp only [List.foldl_cons, ih, toPoly_cons, eval_add, eval_C, eval_mul, eval_X]; ring
+
+theorem toPoly_assignC' (c : K) : toPoly (assignC c) = C c := by
+  unfold assignC
+  split
+  · next h => simp [h]
+  · simp
+
+/-- `power_compose(W,P,b)` is `P(X^b)` for every `b` (for `b = 0` the constant `P(1)`) -/
+theorem toPoly_powerCompose (P : List K) (b : Nat) :
     toPoly (powerCompose P b) = (toPoly P).comp (X ^ b) := by
   unfold powerCompose
-  rw [toPoly_setdegree, toPoly_spread b hb, toPoly_setdegree]
+  have ht := toPoly_setdegree P
+  split
+  · next e => rw [e] at ht; rw [← ht]; simp
+  · split
+    · next hb =>
+      subst hb
+      rw [toPoly_assignC', foldl_sum, zero_add, ht, pow_zero, ← C_1, comp_C]
+    · next hb =>
+      rw [toPoly_setdegree, toPoly_spread b (by omega), ht]
+
 /-! ### dedicated squaring -/
 
 theorem toPoly_append (A B : List K) : toPoly (A ++ B) = toPoly A + X ^ A.length * toPoly B := by
@@ -312,6 +332,85 @@ theorem toPoly_sqr (thr : Nat) (hthr : 1 ≤ thr) (P : List K) : toPoly (sqr thr
   split
   · next h => simp [isEmpty_toPoly h]
   · exact (sqrR_spec thr hthr P.length P).2
+/-! ### truncated product `mul(R,P,Q,Val,deg)` -/
+
+theorem dot_comm (A B : List K) (acc : K) : dot A B acc = dot B A acc := by
+  induction A generalizing B acc with
+  | nil => cases B <;> simp [dot]
+  | cons a A ih =>
+    cases B with
+    | nil => simp [dot]
+    | cons b B => simp only [dot]; rw [ih, mul_comm]
+
+theorem dot_rev (A B : List K) (acc : K) :
+    dot A B.reverse acc = acc + (toPoly A * toPoly B).coeff (B.length - 1) := by
+  rw [dot_comm, dot_eq, List.reverse_reverse, List.length_reverse, mul_comm]
+
+theorem window_coeff (P Q : List K) (N : Nat) (hQ : 1 ≤ Q.length) :
+    (toPoly (P.drop (N - (if N ≥ Q.length then Q.length - 1 else N)))
+        * toPoly (Q.take ((if N ≥ Q.length then Q.length - 1 else N) + 1))).coeff
+        (if N ≥ Q.length then Q.length - 1 else N)
+      = (toPoly P * toPoly Q).coeff N := by
+  generalize hk : (if N ≥ Q.length then Q.length - 1 else N) = k0
+  have hk1 : k0 ≤ N := by split at hk <;> omega
+  have hk2 : k0 + 1 ≤ Q.length := by split at hk <;> omega
+  have hj : N - k0 = 0 ∨ k0 = Q.length - 1 := by split at hk <;> omega
+  have hP := toPoly_take_drop P (N - k0)
+  have hQ' := toPoly_take_drop Q (k0 + 1)
+  have e : toPoly P * toPoly Q = toPoly (P.take (N - k0)) * toPoly Q
+      + X ^ (N - k0) * (toPoly (P.drop (N - k0)) * toPoly (Q.take (k0 + 1)))
+      + X ^ (N + 1) * (toPoly (P.drop (N - k0)) * toPoly (Q.drop (k0 + 1))) := by
+    have : N + 1 = (N - k0) + (k0 + 1) := by omega
+    rw [this, pow_add]
+    conv_lhs => rw [hP]
+    conv_lhs => rw [hQ']
+    conv_rhs => rw [hQ']
+    ring
+  rw [e, coeff_add, coeff_add, coeff_X_pow_mul', coeff_X_pow_mul', if_pos (by omega), if_neg (by omega)]
+  have t1 : (toPoly (P.take (N - k0)) * toPoly Q).coeff N = 0 := by
+    rcases hj with h | h
+    · rw [h]; simp
+    · apply coeff_mul_toPoly_of_le
+      rw [List.length_take]; omega
+  rw [t1]
+  have : N - (N - k0) = k0 := by omega
+  rw [this]; ring
+
+theorem getD_range_map (n : Nat) (f : Nat → K) (i : Nat) :
+    ((List.range n).map f).getD i 0 = if i < n then f i else 0 := by
+  simp only [List.getD_eq_getElem?_getD, List.getElem?_map]
+  split
+  · next h => simp [List.getElem?_range h]
+  · next h => rw [List.getElem?_eq_none (by simp; omega)]; rfl
+
+/-- the truncated product holds exactly the coefficients `Val … deg` of `P·Q` -/
+theorem coeff_mulWindow (P Q : List K) (val deg i : Nat) :
+    (toPoly (mulWindow P Q val deg)).coeff i
+      = if i + val ≤ deg then (toPoly P * toPoly Q).coeff (i + val) else 0 := by
+  unfold mulWindow
+  split
+  · next h =>
+    have : toPoly P * toPoly Q = 0 := by rcases h with h | h <;> simp [isEmpty_toPoly h]
+    rw [this]; simp
+  · next h =>
+    have hQ : 1 ≤ Q.length := by
+      have : Q ≠ [] := fun e => h (Or.inr (by simp [e]))
+      exact List.length_pos_iff.mpr this
+    extract_lets newS
+    rw [toPoly_setdegree, coeff_toPoly, getD_range_map]
+    have hn : (i < newS) ↔ i + val ≤ deg := by
+      simp only [newS]; split <;> omega
+    by_cases hi : i + val ≤ deg
+    · rw [if_pos (hn.mpr hi), if_pos hi]
+      simp only
+      rw [dot_rev, zero_add]
+      have hl : (List.take ((if i + val ≥ Q.length then Q.length - 1 else i + val) + 1) Q).length - 1
+          = (if i + val ≥ Q.length then Q.length - 1 else i + val) := by
+        rw [List.length_take]; split <;> omega
+      rw [hl]
+      exact window_coeff P Q (i + val) hQ
+    · rw [if_neg (fun h => hi (hn.mp h)), if_neg hi]
+
 /-! ### extended gcd -/
 
 theorem isZero_iff (P : List K) : isZero P = true ↔ toPoly P = 0 := by
